@@ -47,14 +47,24 @@ Definition get_tag_key (attrs : list attr) : option str :=
 Definition get_content_key (attrs : list attr) : option str :=
   first (get_name_value_meta_items attrs (lit "content") SERDE).
 
-(* parser.rs:671 parse_comment_attrs: attr.meta is NameValue `doc = "..."` *)
+(* parser.rs:675 parse_comment_attrs, the closure of the flat_map: the (trimmed) value of one doc
+   attribute becomes one entry per line: `if doc.is_empty() { return vec![doc]; }
+   doc.lines().flat_map(|line| line.split('\r')).map(|line| line.trim().to_string())` *)
+Definition doc_entries (doc : str) : list str :=
+  match doc with
+  | [] => [doc]
+  | _ => map (trim uc) (flat_map (split_char ch_cr) (str_lines doc))
+  end.
+
+(* parser.rs:675 parse_comment_attrs: attr.meta is NameValue `doc = "..."` *)
 Definition parse_comment_attrs (attrs : list attr) : list str :=
-  flat_map (fun a => match a_meta a with
-                     | MNV p v => if path_is_ident p (lit "doc") then
-                                    match expr_to_string v with Some s => [s] | None => [] end
-                                  else []
-                     | _ => []
-                     end) attrs.
+  flat_map doc_entries
+    (flat_map (fun a => match a_meta a with
+                        | MNV p v => if path_is_ident p (lit "doc") then
+                                       match expr_to_string v with Some s => [s] | None => [] end
+                                     else []
+                        | _ => []
+                        end) attrs).
 End U.
 
 (* parser.rs:577 has_typeshare_annotation: any path segment of any attribute equals "typeshare" *)
